@@ -119,7 +119,13 @@ func loadHarness(moduleDir string, pkgs []string) (*loaded, error) {
 		return nil, err
 	}
 	m.TargetPrefix = godiMod
-	m.InterpretInitOf(godiMod, "context")
+	prefixes := []string{godiMod, "context"}
+	// package-level variables of a web framework that its handlers depend on
+	switch filepath.Base(moduleDir) {
+	case "harness_fiber":
+		prefixes = append(prefixes, "github.com/gofiber/fiber/v2", "github.com/valyala/fasthttp", "time")
+	}
+	m.InterpretInitOf(prefixes...)
 	return &loaded{m: m, loadS: time.Since(t0).Seconds(), module: moduleDir}, nil
 }
 
